@@ -16,9 +16,10 @@ import (
 )
 
 type wireFault struct {
-	Op    string // read | write | deadline | filter | close-source | close-sink
-	K     int    // k-th call of Op (0-based)
-	Class string // fatal | deadline | zero
+	Op     string // read | write | deadline | filter | close-source | close-sink
+	K      int    // k-th call of Op (0-based)
+	Class  string // fatal | deadline | zero | fatal-slow (write: fails after SlowBy of virtual time)
+	SlowBy time.Duration
 }
 
 var errWireInjected = errors.New("verif: injected wire fault")
@@ -81,6 +82,15 @@ func (w *memWire) fault(op string, k int) (string, bool) {
 		}
 	}
 	return "", false
+}
+
+func (w *memWire) faultRec(op string, k int) (wireFault, bool) {
+	for _, f := range w.faults {
+		if f.Op == op && f.K == k {
+			return f, true
+		}
+	}
+	return wireFault{}, false
 }
 
 // Inject queues an inbound packet.
@@ -166,13 +176,16 @@ func (s *memSource) Read(buf []byte) (int, error) {
 }
 
 func (s *memSource) Close() error {
-	s.w.log.hit("close-source")
+	k := s.w.log.hit("close-source")
 	s.w.mu.Lock()
 	s.w.srcClose++
 	old := s.w.cond
 	s.w.cond = make(chan struct{})
 	s.w.mu.Unlock()
 	close(old)
+	if _, ok := s.w.fault("close-source", k); ok {
+		return fmt.Errorf("close source: %w", errWireInjected)
+	}
 	return nil
 }
 
@@ -200,7 +213,10 @@ func (s *memSink) WriteTo(buf []byte, addrPort netip.AddrPort) error {
 	}
 	cb := s.w.onWrite
 	s.w.mu.Unlock()
-	if _, ok := s.w.fault("write", k); ok {
+	if f, ok := s.w.faultRec("write", k); ok {
+		if f.Class == "fatal-slow" && f.SlowBy > 0 {
+			time.Sleep(f.SlowBy) // the send is in flight while other things happen
+		}
 		return fmt.Errorf("write: %w", errWireInjected)
 	}
 	p := append([]byte(nil), buf...)
@@ -214,10 +230,13 @@ func (s *memSink) WriteTo(buf []byte, addrPort netip.AddrPort) error {
 }
 
 func (s *memSink) Close() error {
-	s.w.log.hit("close-sink")
+	k := s.w.log.hit("close-sink")
 	s.w.mu.Lock()
 	s.w.snkClose++
 	s.w.mu.Unlock()
+	if _, ok := s.w.fault("close-sink", k); ok {
+		return fmt.Errorf("close sink: %w", errWireInjected)
+	}
 	return nil
 }
 
